@@ -66,6 +66,9 @@ func genC19(ref core.CaseRef, r *rand.Rand, quick bool) *c19Cfg {
 	if c.SinkDelayUs >= 1000 {
 		c.RowsPer = 300 + r.Intn(500)
 	}
+	if c.SinkDelayUs >= 50 && c.Producers*c.RowsPer > 60000 {
+		c.RowsPer = 60000 / c.Producers // a slow consumer works through at most 60 000 rows
+	}
 	if c.Strategy == "block" && r.Intn(3) == 0 {
 		c.BlockMs = 1 + r.Intn(3) // block WITH a timeout may drop (and must count)
 	}
@@ -107,14 +110,14 @@ func runC19(ctx *core.Ctx) {
 			return
 		}
 		t0 := time.Now()
-		out := ctx.RunChild(c, 180*time.Second)
+		out := ctx.RunChild(c, 300*time.Second)
 		if d := time.Since(t0); d > 10*time.Second && os.Getenv("C19_DEBUG") != "" {
 			fmt.Fprintf(os.Stderr, "c19 case %d took %v: %s\n", i, d, core.J(c))
 		}
 		attrs := map[string]string{"strategy": c.Strategy, "producers": fmt.Sprint(c.Producers), "perturb": fmt.Sprint(c.Perturb)}
 		switch {
 		case out.TimedOut:
-			ctx.Violate(core.Violation{Kind: "conservation.hang", Attrs: attrs, Detail: "batch did not finish within 180 s; goroutine dump:\n" + out.Log, Case: c})
+			ctx.Violate(core.Violation{Kind: "conservation.hang", Attrs: attrs, Detail: "batch did not finish within 300 s; goroutine dump:\n" + out.Log, Case: c})
 		case out.Result == nil:
 			ctx.Violate(core.Violation{Kind: "conservation.process_crash", Attrs: attrs, Detail: fmt.Sprintf("child exited with %d without a result:\n%s", out.ExitCode, out.Log), Case: c})
 		default:
@@ -259,11 +262,32 @@ func childC19(ctx *core.Ctx, raw []byte) {
 	}
 	prodDone := make(chan struct{})
 	go func() { wg.Wait(); close(prodDone) }()
-	select {
-	case <-prodDone:
-	case <-time.After(150 * time.Second):
-		viol("conservation.producer_stuck", fmt.Sprintf("producers still blocked in Emit after 150 s (strategy %s)", c.Strategy))
-		return
+	// producers that are merely slow (many rows behind a slow consumer on a loaded machine) are not stuck: the
+	// verdict needs 30 s without a single row being processed while Emit calls are still outstanding
+	progress := func() int64 {
+		mu.Lock()
+		defer mu.Unlock()
+		return int64(len(seen)) + nilSeen
+	}
+	lastN, lastChange, started := progress(), time.Now(), time.Now()
+waitProducers:
+	for {
+		select {
+		case <-prodDone:
+			break waitProducers
+		case <-time.After(2 * time.Second):
+		}
+		if n := progress(); n != lastN {
+			lastN, lastChange = n, time.Now()
+		}
+		if time.Since(lastChange) > 30*time.Second {
+			viol("conservation.producer_stuck", fmt.Sprintf("producers still blocked in Emit and no row processed for 30 s (strategy %s, %d of %d Emit calls started, %d rows processed)", c.Strategy, atomic.LoadInt64(&emits), c.Producers*c.RowsPer, lastN))
+			return
+		}
+		if time.Since(started) > 170*time.Second {
+			ctx.Inconclusive("c19: producers slow but progressing after 170 s (loaded machine)")
+			return
+		}
 	}
 	// quiescence: nothing queued, counters stable
 	total := atomic.LoadInt64(&emits)
